@@ -117,9 +117,13 @@ class EndpointUrlArgsGenerator:
         if path_params:
             # Import DataclassSerializer since we use it for parameter serialization
             context.add_import(f"{context.core_package_name}.utils", "DataclassSerializer")
+            # ... and percent-encoded, so that the value stays one path segment whatever characters it contains
+            context.add_import(f"{context.core_package_name}.utils", "encode_path_value")
             for p in path_params:
                 param_var_name = NameSanitizer.sanitize_method_name(p["name"])
-                writer.write_line(f"{param_var_name} = DataclassSerializer.serialize({param_var_name})")
+                writer.write_line(
+                    f"{param_var_name} = encode_path_value(DataclassSerializer.serialize({param_var_name}))"
+                )
             writer.write_line("")  # Blank line after path param serialization
 
         url_expr = self._build_url_with_path_vars(op.path)
